@@ -13,7 +13,8 @@ RULE = ('Every in-domain structure with <= D wires on the lattice (free space an
         'Three-way comparison: (a) untransformed, (b) moved through --geo-rotate/--geo-translate/--geo-scale and '
         'built by main(), (c) coordinates moved by the harness\' own matrices. (b)=(c) in segment ends, Z, currents; '
         '(a)=(b) in Z, geometrically mapped conductor currents and total gain at 14 directions d vs R*d. '
-        'State = (structure, motion); transition = one build+solve. Non-trivial: motion is not the identity and the '
+        'Structures with an arc, a helix or a tapered wire and a collinear pair with a small gap are moved through the '
+        'options and compared with the unmoved structure (segment table, Z, conductor currents, gain). State = (structure, motion); transition = one build+solve. Non-trivial: motion is not the identity and the '
         'structure has a junction, a load or a grounded end.')
 ASSUMPTIONS = ['rotation order X, then Y, then Z and scaling last are taken from the documentation',
                'per-tag motions are compared (b) vs (c) only (they change the antenna)']
@@ -80,6 +81,7 @@ def compose(seq):
 
 def cases(tier, seed):
     yield from gap_cases(tier, seed)
+    yield from curved_cases(tier, seed)
     D = 2 if tier == 'quick' else 3
     for ground, special in ((False, False), (True, False), (False, True), (True, True)):
         P, f, lam = geom.lattice(seed, ground=ground, special=special)
@@ -110,6 +112,71 @@ def gap_cases(tier, seed):
             pts = [list(o), list(o + 0.24 * lam * u), list(o + 0.241 * lam * u), list(o + 0.481 * lam * u)]
             yield dict(env=env, f=f, lam=lam, pts=pts, nodomain=True,
                        st=[dict(a=0, b=1, n=6, r=2e-4 * lam), dict(a=2, b=3, n=6, r=2e-4 * lam)])
+
+
+def curved_cases(tier, seed):
+    """structures with an arc, a helix or a tapered wire (first description of each C06 extra): moved through the
+    options against the unmoved structure"""
+    from mcx.props import c06
+    for c in c06.extras(tier, seed):
+        if c['extra'].startswith(('telescope', 'distload')) or 'fixed' in c['extra']:
+            continue
+        yield dict(curved=c['extra'], env=c['env'], f=c['f'], lam=c['lam'], wires=c['descs'][0], srcs=c['srcs'])
+
+
+def eval_curved(c):
+    ground = c['env'] != 'free'
+    lam = c['lam']
+    a_case = dict(f=c['f'], env=c['env'], wires=c['wires'])
+    ma = geom.build(dict(a_case, sources=c['srcs']))
+    ma.compute()
+    tol, cond = geom.cond_tol(ma)
+    if tol is None:
+        return dict(viol=[], skipped='cond>1e5', evals=1)
+    za = np.array([s.impedance for s in ma.sources])
+    dirs = [d for d in DIRS if not ground or d[0] <= 90]
+    ga = gain_dirs(ma, dirs)
+    gmask = ga > ga.max() - 40
+    if ground:
+        menu = [[('rotate', 1, [0., 0., 71.])], [('translate', 1, [0.3 * lam, -lam, 0.])], [('scale', 0.5)], [('scale', 3.7)],
+                [('translate', -1, [lam, 0., 0.]), ('scale', 2.), ('rotate', 3, [0., 0., 90.])]]
+    else:
+        menu = [[('rotate', 1, [17., -33., 71.])], [('rotate', 1, [90., 0., 0.])], [('rotate', 1, [0., 180., 45.])],
+                [('translate', 1, [0.3 * lam, -lam, 2 * lam])], [('translate', 1, [1000 * lam, 0., 0.])], [('scale', 0.5)], [('scale', 3.7)], [('scale', 4.), ('scale', 0.25)],
+                [('translate', -1, [lam, 0., 0.]), ('scale', 2.), ('rotate', 3, [0., 0., 90.])],
+                [('rotate', 2.5, [90., 0., 45.]), ('rotate', 0.5, [0., 30., 0.])]]
+    viol, canon, worst, wn, n = [], [], 0.0, None, 0
+    for seq in menu:
+        R, t, s = compose(seq)
+        name = '+'.join('%s%s' % (m[0][0], m[1] if m[0] == 'scale' else m[2]) for m in seq)
+        n += 1
+        mb, diag = cli.build_main(cli.argv(dict(a_case, transforms=[list(m) for m in seq], f=c['f'] / s), ['--excitation-pulse=1']))
+        if mb is None:
+            viol.append(('REJECTED-curved', '%s: motion %s rejected: %s' % (c['curved'], name, diag)))
+            continue
+        cli.reset_sources(mb)
+        s2, _ = xf_exc(c['srcs'], [], R, t, s)
+        geom.add_sources(mb, s2)
+        mb.compute()
+        # the harness' own image of the segment table
+        ea, eb = segends(ma), segends(mb)
+        exp = s * (ea @ R.T + t)
+        size = max(1.0, float(np.abs(exp).max()))
+        dv = {}
+        dv['ends'] = (float(np.abs(eb - exp).max() / size) if eb.shape == exp.shape else float('inf')) / 1e-9 * tol
+        zb = np.array([x.impedance for x in mb.sources])
+        dv['Z_ab'] = float(np.max(np.abs(za - zb) / np.abs(za)))
+        x = geom.cmp_half_currents(geom.half_currents(ma).transformed(R, t, s), geom.half_currents(mb))
+        dv['I_ab'] = float('inf') if x is None else x
+        gb = gain_dirs(mb, [rot_dir(R, th, ph) for th, ph in dirs])
+        dv['G_ab'] = float(np.max(np.abs(ga - gb)[gmask])) / 0.01 * tol
+        canon.append('%s|%s' % (c['curved'], name))
+        for k, x in dv.items():
+            if x / tol > worst:
+                worst, wn = x / tol, (k, name)
+            if not (x <= tol):
+                viol.append(('DEV-%s-curved' % k, '%s: %s deviates %.3g (tolerance-scaled limit %.3g) for motion %s, cond %.0f' % (c['curved'], k, x, tol, name, cond)))
+    return dict(viol=viol[:8], canon=canon, nontriv=True, trans=2 * n, traces=n, evals=2 * n, dev=worst * tol, outcome='curved', note=dict(worst=wn, cond=cond))
 
 
 def base_case(c):
@@ -149,6 +216,8 @@ def segends(m):
 
 
 def evaluate(c):
+    if 'curved' in c:
+        return eval_curved(c)
     from mcx.props.c06 import excitation
     ground = c['env'] != 'free'
     a_case = base_case(c)
